@@ -239,4 +239,28 @@ def specScores (scored : List Input) (cfg : Cfg) (r : Req) : Except String (List
           | _ => ((selCases d r.sel).filter ok).map (adjusted inputs cfg r.fields I name)
         .ok (if (cols.headD []).isEmpty then List.replicate r.fields.length [.nan] else cols)
 
+/-! ### `-obs FIELD`, `-fcst FIELD`
+
+"Use FIELD as the observation / forecast": the input `I'` is input `I` read that way when it has the same coordinates
+and looking up "obs" in `I'` gives what `I` stores under the `-obs` name (nothing when that is a CDF / quantile column
+or an ensemble member, which cannot be an observation), "fcst" what it stores under the `-fcst` name, and any other
+name what `I` stores under that name. -/
+
+structure ReadsAs (cfg : Cfg) (I I' : Input) : Prop where
+  hT : I'.times = I.times
+  hL : I'.leads = I.leads
+  hX : I'.locs = I.locs
+  hObs : I'.field? "obs" = if cfg.obsFieldOK then I.field? cfg.obsField else none
+  hFcst : I'.field? "fcst" = I.field? cfg.fcstField
+  hOther : ∀ name, name ≠ "obs" → name ≠ "fcst" → I'.field? name = I.field? name
+
+/-- the documented answer under `-obs` / `-fcst`: the specification on the inputs read that way
+(`Input.resolved` is such a reading: `resolved_readsAs` in Proofs/DataFields.lean) -/
+def specScoresF (scored : List Input) (cfg : Cfg) (r : Req) : Except String (List Vec) :=
+  specScores (scored.map (Input.resolved cfg)) cfg.resolved r
+
+/-- the verified dimensions do not depend on which fields are read (coordinates only) -/
+def specDimsF (scored : List Input) (cfg : Cfg) : Option Dims :=
+  specDims (scored.map (Input.resolved cfg)) cfg.resolved
+
 end VerifModel.Spec.DataCoord
